@@ -496,6 +496,20 @@ func serveStress(s *Summary, rng *rand.Rand, n int, out *traceWriter) {
 			rl.log = append(rl.log, []any{"main", "o"})
 			c.Text(200, "main:"+rid+":")
 		})
+		// a route whose middleware puts a wrapper of its own in place of the response writer for ITS request (a tagging
+		// writer); the wrapper must not be there for any other request
+		r.GET("/w", func(c *rux.Context) {
+			rl, ok := c.Req.Context().Value(reqLogKey{}).(*reqLog)
+			if !ok {
+				return
+			}
+			rid := c.Req.Header.Get("X-Req")
+			rl.log = append(rl.log, []any{"main", "w"})
+			c.Text(200, "main:"+rid+":")
+		}, func(c *rux.Context) {
+			c.Resp = &tagWriter{ResponseWriter: c.Resp, tag: "[" + c.Req.Header.Get("X-Req") + "]"}
+			c.Next()
+		})
 		if t%4 >= 2 {
 			// an application's own 405 handler that edits the list of allowed methods it was given (its request's data)
 			r.NotAllowed(func(c *rux.Context) {
@@ -512,7 +526,7 @@ func serveStress(s *Summary, rng *rand.Rand, n int, out *traceWriter) {
 		var wg sync.WaitGroup
 		var mu sync.Mutex
 		bad := []string{}
-		kinds := []string{"a", "b", "nf", "b", "a", "na", "rd", "hb", "o"}
+		kinds := []string{"a", "b", "nf", "b", "a", "na", "rd", "hb", "o", "w"}
 		for w := 0; w < workers; w++ {
 			wg.Add(1)
 			wr := rand.New(rand.NewSource(rng.Int63()))
@@ -541,6 +555,9 @@ func serveStress(s *Summary, rng *rand.Rand, n int, out *traceWriter) {
 					}
 					if kind == "na" {
 						path = "/onlypost"
+					}
+					if kind == "w" {
+						path = "/w"
 					}
 					rec := httptest.NewRecorder()
 					rl := &reqLog{}
@@ -577,6 +594,9 @@ func serveStress(s *Summary, rng *rand.Rand, n int, out *traceWriter) {
 					if kind == "o" {
 						want = append(soloLog("nf", sh[0], 0), []any{"main", "o"})
 					}
+					if kind == "w" {
+						want = append(soloLog("nf", sh[0], 0), []any{"main", "w"})
+					}
 					if kind == "hb" { // global middleware, then the HEAD route's handler (the route has no middleware of its own)
 						want = append(soloLog("nf", sh[0], 0), []any{"main", "hb"})
 					}
@@ -584,6 +604,8 @@ func serveStress(s *Summary, rng *rand.Rand, n int, out *traceWriter) {
 					switch kind {
 					case "a", "rd", "o":
 						okc = okc && rec.Body.String() == "main:"+rid+":"
+					case "w":
+						okc = okc && rec.Body.String() == "["+rid+"]main:"+rid+":"
 					case "b":
 						okc = okc && rec.Body.String() == "main:"+rid+":"+id && par == id
 					case "hb":
@@ -599,7 +621,7 @@ func serveStress(s *Summary, rng *rand.Rand, n int, out *traceWriter) {
 						mu.Unlock()
 					}
 					mu.Lock()
-					if out.n < 4000 && kind != "hb" && kind != "o" {
+					if out.n < 4000 && kind != "hb" && kind != "o" && kind != "w" {
 						out.emit(map[string]any{"op": "req", "kind": k2, "glen": sh[0], "mwlen": sh[2], "log": normLogOrEmpty(got), "code": rec.Code})
 					}
 					mu.Unlock()
@@ -643,4 +665,18 @@ func normLogOrEmpty(l [][]any) [][]any {
 		return [][]any{}
 	}
 	return l
+}
+
+// tagWriter is an application's response-writer wrapper: it marks everything written through it.
+type tagWriter struct {
+	http.ResponseWriter
+	tag string
+}
+
+func (t *tagWriter) Write(b []byte) (int, error) {
+	n, err := t.ResponseWriter.Write(append([]byte(t.tag), b...))
+	if n > len(t.tag) {
+		n -= len(t.tag)
+	}
+	return n, err
 }
